@@ -1,4 +1,4 @@
-use super::{CallError, FunctionMap, check};
+use super::{FunctionMap, check};
 use crate::Scope;
 use crate::css::{CssString, Value};
 use crate::value::ListSeparator;
@@ -57,13 +57,12 @@ pub fn create_module() -> Scope {
         } else {
             end_at as usize
         };
-        if start_at <= end_at {
-            let part =
-                st.chars().skip(start_at).take(end_at - start_at).collect();
-            Ok(CssString::new(part, string.quotes()).into())
-        } else {
-            Err(CallError::msg(format!("Bad indexes: {start_at}..{end_at}")))
-        }
+        let part = st
+            .chars()
+            .skip(start_at)
+            .take(end_at.saturating_sub(start_at))
+            .collect();
+        Ok(CssString::new(part, string.quotes()).into())
     });
     def!(f, split(string, separator, limit = b"null"), |s| {
         let string: CssString = s.get(name!(string))?;
